@@ -3,6 +3,9 @@
 import sys, os
 sys.path.insert(0, os.path.dirname(os.path.abspath(__file__)))
 import verus_unit as VU
+import atexit, shutil
+if '--keep' not in sys.argv:
+    atexit.register(lambda: shutil.rmtree(VU.WORK, ignore_errors=True))
 r = VU.check_unit(os.path.join(VU.VERIF, "contracts", sys.argv[1] + ".rs.tpl"))
 print("status=%s obligations=%d discharged=%d verified=%d errors=%d wall=%.1fs smt=%dms vacuity=%s" % (r.status, r.obligations, r.discharged, r.verified, r.errors, r.wall_s, r.smt_ms, r.vacuity))
 if r.reason:
